@@ -2791,12 +2791,15 @@ impl KotoVm {
 
         let result = match (&value, index) {
             (List(l), Number(n)) => {
-                let index = self.validate_index(n, Some(l.len()))?;
-                l.data()[index].clone()
+                // The index is validated while the list is locked for the access
+                let data = l.data();
+                let index = self.validate_index(n, Some(data.len()))?;
+                data[index].clone()
             }
             (List(l), Range(range)) => {
-                let indices = range.indices(l.len());
-                List(KList::from_slice(&l.data()[indices]))
+                let data = l.data();
+                let indices = range.indices(data.len());
+                List(KList::from_slice(&data[indices]))
             }
             (Tuple(t), Number(n)) => {
                 let index = self.validate_index(n, Some(t.len()))?;
